@@ -227,10 +227,23 @@ def _offgrid(res, case, B, outB, ref, pert, step_ends):
         out, ev, (solver, sol) = call(a["C"], a["tc"], a["t0"], a["t1"], float(case["atol"]), float(case["rtol"]),
                                       float(case["dt0"]), float(case["eps"]), float(case["damp"]), a["base"], a["std"])
         grid = np.asarray(sol.t)
+        # the off-grid marginals interpolate the save-every-step run's own steps: they are comparable with the checkpointed run only if
+        # both runs accepted the same steps (the un-jitted Python loop and the compiled scan round differently; a borderline accept/reject
+        # decision may flip - then both are right to tolerance level, but not to rounding level)
+        ends_es = [e[1] + e[2] for e in ev if e[0] == "error" and e[3] >= 1.0]
+        ends_b = [t for t in step_ends if t <= ends_es[-1] * (1 + 1e-12)] if ends_es else []
+        n_cmp = min(len(ends_es), len(ends_b))
+        if n_cmp == 0 or abs(len(ends_es) - len(ends_b)) > 0 or np.max(np.abs(np.asarray(ends_es[:n_cmp]) - np.asarray(ends_b[:n_cmp]))) > 1e-9 * (1 + abs(ends_es[-1])):
+            res.label("offgrid:different_step_sequence")
+            return
         idx, means, covs = [], [], []
         for k, t in enumerate(B[1:-1], start=1):
-            if np.min(np.abs(grid - t)) <= 10 * case["eps"] or not (grid[0] < t < grid[-1]):
-                continue  # documented: off-grid times must not coincide with grid points
+            # documented: off-grid times must not coincide with grid points. The save-every-step run's grid equals the checkpointed run's
+            # steps only up to rounding jitter (un-jitted loop vs compiled scan, observed 1e-10): a requested time that close to a step end
+            # falls on different sides of it in the two runs (prediction vs updated state) - not comparable, and C05 compares such
+            # checkpoints with the interpolation model anyway
+            if np.min(np.abs(grid - t)) <= max(10 * case["eps"], 1e-7 * (1.0 + abs(t))) or not (grid[0] < t < grid[-1]):
+                continue
             est = solver.offgrid_marginals(jnp.asarray(t), solution=sol)
             m, c = est.to_multivariate_normal()
             idx.append(k), means.append(np.asarray(m)), covs.append(np.asarray(c))
